@@ -9,6 +9,11 @@ open Driver Tins Tins.Wire
 
 structure SState where
   dummy : Unit := ()
+  /-- C04, object half: (layer index, setter name, value) of the verbatim byte-string setters applied since `new`,
+      latest first -/
+  sets : List (Nat × String × String) := []
+  /-- layers whose option list was edited through the raw interface (add / remove by code): not tracked any more -/
+  poison : List Nat := []
 
 structure Layer where
   cls : String
@@ -188,6 +193,58 @@ def specReparse (st : SState) (line : String) : SState × String :=
     | _ => (st, "unspecified")
 
 def spec03 := specReparse
-def spec04 := specReparse
+
+/-- setters whose typed getter must hand back exactly the octets that were set (the dump prints the getter's result as hex
+    under the setter's name): textual / opaque options of DHCP, Dot11 management frames and PPPoE -/
+def verbatimSetters : List String :=
+  ["ssid", "challenge_text", "hostname", "domain_name", "service_name", "ac_name", "host_uniq", "ac_cookie",
+   "relay_session_id", "service_name_error", "ac_system_error", "generic_error"]
+
+def isHexish (v : String) : Bool := v == "-" || (v.length % 2 == 0 && v.all (fun c => c.isDigit || ('a' ≤ c && c ≤ 'f')))
+
+/-- C04 = the wire half (`specReparse`) + "getters reflect exactly the accumulated edits" for the verbatim setters.  A typed
+    setter ADDS an option and the typed getter returns the FIRST option of that code ("first matching option"), so what a
+    dump must show under `name` is the first value set through that setter — as long as the option list of the layer was
+    not edited through the raw interface (add / remove by code), which may add, remove or shadow the option. -/
+def spec04 (st : SState) (line : String) : SState × String :=
+  match implParts line with
+  | none => (st, "bad-line")
+  | some (op, common, _) =>
+    match words op with
+    | ["new"] => ({ st with sets := [], poison := [] }, "unspecified")
+    | "set" :: idx :: name :: rest =>
+      if (words common).head? != some "ok" then (st, "unspecified") else
+      match idx.toNat? with
+      | none => (st, "unspecified")
+      | some i =>
+        if st.poison.contains i then (st, "unspecified")
+        else if verbatimSetters.contains name then
+          match rest with
+          | [v] =>
+            if isHexish v && !(st.sets.any (fun e => e.1 == i && e.2.1 == name)) then
+              ({ st with sets := (i, name, v) :: st.sets }, "unspecified")
+            else (st, "unspecified")
+          | _ => (st, "unspecified")
+        else if name.startsWith "add_" || name.startsWith "remove_" || name == "end_of_list" || name == "vendor_specific" then
+          ({ st with sets := st.sets.filter (fun e => e.1 != i), poison := i :: st.poison }, "unspecified")
+        else (st, "unspecified")
+    | ["show"] =>
+      let cw := words common
+      match cw with
+      | "ok" :: chain :: _ =>
+        match parseChainStr chain with
+        | some ls =>
+          let bad := st.sets.filterMap (fun (i, name, v) =>
+            match ls[i]? with
+            | some l => match l.fields.find? (fun f => f.1 == name) with
+              | some f => if f.2 == v then none else some s!"layer {i} {name} set={v.take 60} get={f.2.take 60}"
+              | none => none
+            | none => none)
+          match bad with
+          | b :: _ => (st, s!"violates last-value-set {b}")
+          | [] => specReparse st line
+        | none => specReparse st line
+      | _ => specReparse st line
+    | _ => specReparse st line
 
 end Driver.WireSpec
